@@ -75,6 +75,8 @@ def sparsify(b, rng):
             o["busy"] = True       # a query is in flight on the store's connection pool while the syncer writes
         if o["op"] == "process":
             o["num"] = r(o["num"])
+            if o.get("fault", {}).get("kind") == "readinit":
+                o["fault"] = dict(kind="readinit", at=0, r=rng.randrange(1, 100))     # which column read of the node walk fails
             if o.get("fault", {}).get("kind") == "read":
                 # r >= 0: which of the reads in front of that write fails (0 / beyond the last one: the write itself);
                 # frac > 0: the read at frac/1000 of all reads of the operation (counted by a probe run on the twin)
@@ -184,7 +186,7 @@ def store_check(prop, model_cfgs, gen_cfgs, quick_n, thorough_n, kinds_note, inv
         nreorg = sum(1 for b in behs for o in b["ops"] if o["op"] == "reorg")
         # failing reads (SQLite authorizer): how many were really injected, and where
         rfired, rwhere = 0, {}
-        if any(o.get("fault", {}).get("kind") == "read" for b in behs for o in b["ops"]):
+        if any(o.get("fault", {}).get("kind") in ("read", "readinit") for b in behs for o in b["ops"]):
             for line in open(tf):
                 if '"fired":true' in line.replace(" ", ""):
                     e = json.loads(line)
